@@ -634,9 +634,11 @@ def run_library(c0, d0, h_us, n, mans, sp=None):
         stop = relabel(d0 + timedelta(microseconds=h_us * n), sp.get("scale_stop"))
     out = []
     for k, o in enumerate(orb.iter(stop=stop)):
-        y = np.array(o.base, float)
+        y = np.array(o.copy(form="cartesian").base, float)
         if not np.all(np.isfinite(y)):
             raise Violation("propagation-nonfinite", f"state {k} of the propagation with maneuvers is {y.tolist()}")
+        if not (float(np.linalg.norm(y[:3])) > 1e4 and float(np.linalg.norm(y[3:])) > 1e-2):
+            raise Violation("propagation-implausible", f"state {k} of the propagation is {y.tolist()} (not a position / velocity)")
         off = (o.date - d0).total_seconds() - k * h_us / 1e6
         # dates are kept to the microsecond, a UT1 / TDB label costs one more; a TDB second is not an SI second on the
         # geoid (3.3e-10 at most)
